@@ -22,6 +22,7 @@ import (
 type keyRecorder struct{ k uint64 }
 
 func (r *keyRecorder) CheckAndSet(k uint64) bool             { r.k = k; return false }
+func (r *keyRecorder) Has(k uint64) bool                     { r.k = k; return false }
 func (r *keyRecorder) DB(string) numbercache.ICache[uint64] { return r }
 
 type Cand struct {
